@@ -16,13 +16,14 @@ import (
 func init() {
 	Registry["C19"] = Entry{
 		Run: runC19,
-		Explanation: "Decides four structural necessary conditions of 'semantic edits preserve behaviour' (thin claim): " +
+		Explanation: "Decides structural necessary conditions of 'semantic edits preserve behaviour' (thin claim): " +
 			"G1 every holder of a reference is visited: for each refactoring entry point, the set of syntax fields read by the functions it reaches inside package refactoring (including the Apply methods of the edit values it creates) contains every place where the renamed / removed name can occur (call bindings, modifier bindings, return bindings, pipeline retains, the top-level call where applicable), " +
 			"G2 every expression container is traversed: the expression walkers that rewrite or remove references have an arm for each expression kind that can contain a reference in an uncompiled AST (RefExp, SplitExp, ArrayExp, MapExp) and recurse into the containers (sibling agreement), " +
 			"G3 names are matched whole: no strings.HasPrefix/HasSuffix/Contains/Index of a syntax name field against a non-constant name without a '.' delimiter anywhere in package refactoring, " +
 			"G4 key domains: Pipeline.Callables.Table is accessed with call ids and Ast.Callables.Table with declared names (domains of edit fields inferred from their stores into / comparisons with CallStm.Id and CallStm.DecId), " +
 			"G5 name spaces: nothing reachable from RenameOutput rewrites the id of a binding taken from CallStm.Bindings (an input name), " +
 			"G6 edits created while a callable is renamed do not find their target through the live id of a compiled pipeline they point to (a later rename of that pipeline in the same request would make the replay miss it). " +
+			"G7 the rename walkers visit every binding of every binding list: no sub-slice of BindStms.List and no early exit from a loop over it that does work per element (the wildcard binding is an ordinary entry and may hold the reference). " +
 			"NOT decided: that the edited program compiles, call-graph equality, round-trip of renames.",
 		Assumptions: commonAssumptions,
 	}
@@ -230,11 +231,14 @@ func runC19(c *an.Ctx) {
 	}
 	// the mechanism itself, its closures and the helpers it calls directly (a shared walker such as
 	// forEachBinding(pipe, visit)); other mechanisms of the table are not followed
-	mechOf := func(fn *ssa.Function) map[*ssa.Function]bool {
+	mechOf := func(fn *ssa.Function, maxDepth int) map[*ssa.Function]bool {
 		mech := map[*ssa.Function]bool{}
-		var walkM func(g *ssa.Function)
-		walkM = func(g *ssa.Function) {
-			if g == nil || mech[g] || !inRefac(g) {
+		var walkM func(g *ssa.Function, d int)
+		walkM = func(g *ssa.Function, d int) {
+			// helpers called directly by the mechanism only: what a helper's own callees read
+			// (removeCallSet goes on to edit parameters and reads retains for that) is not part
+			// of this mechanism's enumeration
+			if g == nil || mech[g] || !inRefac(g) || d > maxDepth {
 				return
 			}
 			if g != fn && g.Parent() == nil {
@@ -246,15 +250,33 @@ func runC19(c *an.Ctx) {
 			}
 			mech[g] = true
 			for _, a := range g.AnonFuncs {
-				walkM(a)
+				walkM(a, d)
 			}
 			an.Instrs(g, func(in ssa.Instruction) {
-				if cl := an.AsCallAny(in); cl != nil {
-					walkM(cl.Common().StaticCallee())
+				cl := an.AsCallAny(in)
+				if cl == nil {
+					return
+				}
+				// a helper belongs to the mechanism when it is handed one of the objects being
+				// walked (the pipeline, a call, a binding list ...); a helper that is given
+				// something else - hasSideEffects(callable) reads another pipeline's retains to
+				// answer a different question - does not walk for the mechanism
+				for _, a := range cl.Common().Args {
+					t := a.Type()
+					if pt, ok := t.(*types.Pointer); ok {
+						t = pt.Elem()
+					}
+					if n, ok := t.(*types.Named); ok && n.Obj().Pkg() != nil && n.Obj().Pkg().Path() == syntaxPath {
+						switch n.Obj().Name() {
+						case "Pipeline", "CallStm", "BindStms", "Modifiers", "ReturnStm", "PipelineRetains", "Ast", "BindStm":
+							walkM(cl.Common().StaticCallee(), d+1)
+							return
+						}
+					}
 				}
 			})
 		}
-		walkM(fn)
+		walkM(fn, 0)
 		return mech
 	}
 	for _, pf := range perFn {
@@ -268,7 +290,7 @@ func runC19(c *an.Ctx) {
 			c.Undecided("G1", "mechanism("+pf.fn+")", token.NoPos, "function not found")
 			continue
 		}
-		mech := mechOf(fn)
+		mech := mechOf(fn, 1)
 		got := fieldsRead(mech)
 		var missing []string
 		for _, f := range pf.fields {
